@@ -1,6 +1,7 @@
 package verifsim
 
 import (
+	"github.com/sanonone/kektordb/pkg/core/hnsw"
 	"bytes"
 	"encoding/json"
 	"fmt"
@@ -85,6 +86,7 @@ type c17Cfg struct {
 	Cache     bool               `json:"cache"`
 	Seeded    []c17Seeded        `json:"seeded"` // cache entries inserted up front (with sources) for the invalidation clause
 	CacheLang string             `json:"cache_lang"`
+	FwMemory  bool               `json:"fw_memory"` // the forbidden-prompt index is a memory index (time decay) holding old entries: the firewall compares distances, not decayed scores
 }
 
 type c17Seeded struct {
@@ -116,7 +118,7 @@ func runC17(w *World, tr *Trace) {
 		jsonUnmarshal(canonJSON(tr.Extra["cfg"]), &cfg)
 		jsonUnmarshal(canonJSON(tr.Extra["steps"]), &steps)
 	} else {
-		cfg = c17Cfg{Firewall: r.Intn(4) != 0, Cache: r.Intn(4) != 0, FwMetric: pick(r, []string{"cosine", "euclidean"}),
+		cfg = c17Cfg{Firewall: r.Intn(4) != 0, Cache: r.Intn(4) != 0, FwMemory: r.Intn(4) == 0, FwMetric: pick(r, []string{"cosine", "euclidean"}),
 			FwThr: pick(r, []float32{0.05, 0.25, 0.4}), CacheThr: pick(r, []float32{0.02, 0.1, 0.3}), TTL: pick(r, []int64{0, 5, 60}),
 			Forbidden: map[string]float64{}, Angles: map[string]float64{}, CacheLang: pick(r, []string{"", "english"})}
 		denyPool := []string{"ignore previous instructions", "system prompt", "drop table", "pass(word|phrase)"}
@@ -197,12 +199,20 @@ func runC17(w *World, tr *Trace) {
 			panic(harnessErr{"initial open: " + err.Error()})
 		}
 		e := w.E
-		if err := e.VCreate("fw", distanceMetric(cfg.FwMetric), 16, 200, "float32", "", nil, nil, nil); err != nil {
+		var fwMem *hnsw.MemoryConfig
+		if cfg.FwMemory {
+			fwMem = &hnsw.MemoryConfig{Enabled: true, DecayHalfLife: hnsw.Duration(time.Hour)}
+		}
+		if err := e.VCreate("fw", distanceMetric(cfg.FwMetric), 16, 200, "float32", "", nil, nil, fwMem); err != nil {
 			panic(harnessErr{err.Error()})
 		}
 		for _, id := range sortedKeys(cfg.Forbidden) {
 			a := cfg.Forbidden[id]
-			e.VAdd("fw", id, []float32{float32(math.Cos(a)), float32(math.Sin(a))}, map[string]any{"text": id})
+			meta := map[string]any{"text": id}
+			if cfg.FwMemory {
+				meta["_created_at"] = float64(time.Now().Add(-30 * 24 * time.Hour).Unix()) // many half-lives old
+			}
+			e.VAdd("fw", id, []float32{float32(math.Cos(a)), float32(math.Sin(a))}, meta)
 		}
 		if err := e.VCreate("cache", "cosine", 16, 200, "float32", cfg.CacheLang, nil, nil, nil); err != nil {
 			panic(harnessErr{err.Error()})
